@@ -16,7 +16,8 @@ Operation lists: comma separated, modes octal, `p`/`t` = path / temp file:
 * `fsrun <ops> <k> <mode> <umask>`: run the model on `<ops>`, kill after `k` operations, report
   `path=<orig|fmt|missing|other>:<mode|-> tmp=<0|1>` — compared with the real file system after a
   real SIGKILL at that point.
-* `fssafe <ops>`: `SafeSeq`/`SafeSeqMode` of an observed operation list. -/
+* `fssafe <ops>`: `SafeSeq`/`SafeSeqMode` of an observed operation list.
+* `fsmode <ops>`: `ModeSafeSeq` of an observed operation list (informational, stronger than C26). -/
 
 def octOfNat (n : Nat) : String := String.ofList (Nat.toDigits 8 n)
 
@@ -127,6 +128,16 @@ def handleFsSafe (fields : List String) : String :=
     | some ops =>
       let t := ops.map Ev.ok
       "safeseq=" ++ bit (SafeSeq t) ++ " modekept=" ++ bit (SafeSeqMode t)
+    | none => "bad-input"
+  | _ => "bad-input"
+
+/-- `fsmode <ops>`: does the model predict the original permission bits at every crash point
+(`ModeSafeSeq`, stronger than the property)?  Compared with what the kills showed. -/
+def handleFsMode (fields : List String) : String :=
+  match fields with
+  | ops :: _ =>
+    match parseOps ops with
+    | some ops => "modeatcrash=" ++ bit (ModeSafeSeq (ops.map Ev.ok))
     | none => "bad-input"
   | _ => "bad-input"
 
